@@ -777,3 +777,168 @@ pub fn drive_quartic(seed: u64, n: usize, extra: &str, sink: &mut Sink) -> usize
     }
     nontrivial
 }
+
+// ===================================================================== C11 piecewise integration
+
+fn pad(v: &[f64], n: usize) -> Vec<f64> {
+    let mut r = v.to_vec();
+    r.resize(n, 0.0);
+    r
+}
+
+macro_rules! pwint_exact {
+    ($T:ty, $n:expr, $ends:expr, $pieces:expr, $indef:expr, $k0:expr, $out:expr, $rep:expr, $l:expr) => {{
+        let pw: Piecewise<$T> = Piecewise {
+            segments: $ends.iter().zip($pieces.iter()).map(|(&e, p)| Segment { end: e, poly: <$T>::from_flat(&pad(p, $n)) }).collect(),
+        };
+        let res = if $indef { pw.indefinite() } else { pw.integral($k0) };
+        let by_ref: Vec<_> = Segment::integral_iter_ref(&pw.segments, $k0).collect();
+        let by_val: Vec<_> = Segment::integral_iter(pw.segments.clone(), $k0).collect();
+        $rep.runs += 1;
+        let mut ok = res.segments.len() == $out.len() && by_ref == by_val;
+        if !$indef {
+            ok &= res.segments == by_ref;
+        }
+        if ok {
+            for ((s, w), &e) in res.segments.iter().zip($out.iter()).zip($ends.iter()) {
+                let want = pad(w, $n + 1);
+                ok &= s.end.to_bits() == e.to_bits() && s.poly.flat().iter().zip(want.iter()).all(|(a, b)| a == b);
+            }
+        }
+        if !ok {
+            $rep.violations.push(json!({"kind":"pwint-exact","piece_type":<$T as Form>::name(),"case":$l,
+                "got":res.segments.iter().map(|s| json!([s.end, s.poly.flat()])).collect::<Vec<_>>(),
+                "iterators_equal": by_ref == by_val}));
+        }
+    }};
+}
+
+/// lines from MC_IntegralIter: integer ends / pieces / knot and the model's integer result.
+pub fn replay_pwint(lines: &[Value], _seed: u64) -> ReplayReport {
+    let mut rep = ReplayReport::default();
+    for l in lines {
+        rep.cases += 1;
+        let ends: Vec<f64> = ivec(&l["ends"]).iter().map(|&v| v as f64).collect();
+        let pieces: Vec<Vec<f64>> = l["pieces"].as_array().unwrap().iter().map(|p| ivec(p).iter().map(|&v| v as f64).collect()).collect();
+        let out: Vec<Vec<f64>> = l["out"].as_array().unwrap().iter().map(|p| ivec(p).iter().map(|&v| v as f64).collect()).collect();
+        let indef = l["indef"].as_bool().unwrap();
+        let k0v = ivec(&l["k0"]);
+        let k0 = Knot { x: k0v[0] as f64, y: k0v[1] as f64 };
+        if ends.len() > 1 {
+            rep.nontrivial += 1;
+        }
+        pwint_exact!(Poly2, 3, ends, pieces, indef, k0, out, rep, l);
+        pwint_exact!(Poly5, 6, ends, pieces, indef, k0, out, rep, l);
+        pwint_exact!(Poly7, 8, ends, pieces, indef, k0, out, rep, l);
+        if rep.samples.len() < 3 && ends.len() >= 3 {
+            rep.samples.push(l.clone());
+        }
+    }
+    rep.violations.truncate(50);
+    rep
+}
+
+fn sorted_pos_ends(rng: &mut Rng, n: usize) -> Vec<f64> {
+    let mut v: Vec<f64> = match rng.below(4) {
+        0 => (0..n).map(|_| rng.float_exp(-6, 6).abs()).collect(),
+        1 => (0..n).map(|_| (1 + rng.below(6)) as f64 / 2.0).collect(), // duplicates likely
+        2 => (0..n).map(|_| 1.0 + rng.unit() * 1e-3).collect(),
+        _ => (0..n).map(|_| rng.float_exp(-20, 20).abs()).collect(),
+    };
+    v.sort_by(|a, b| a.partial_cmp(b).unwrap());
+    v
+}
+fn sorted_any_ends(rng: &mut Rng, n: usize) -> Vec<f64> {
+    let mut v: Vec<f64> = match rng.below(3) {
+        0 => (0..n).map(|_| rng.float_exp(-4, 4)).collect(),
+        1 => (0..n).map(|_| rng.range(-4, 4) as f64 / 2.0).collect(),
+        _ => (0..n).map(|_| rng.float_exp(-12, 12)).collect(),
+    };
+    v.sort_by(|a, b| a.partial_cmp(b).unwrap());
+    v
+}
+
+macro_rules! pwint_case {
+    ($T:ty, $kind:expr, $rng:expr, $sink:expr) => {{
+        let n = 1 + $rng.size(5, 12, 4) as usize;
+        let log = $kind == "log";
+        let ends = if log { sorted_pos_ends($rng, n) } else { sorted_any_ends($rng, n) };
+        let ar = <$T as Form>::arity().unwrap();
+        let pw: Piecewise<$T> = Piecewise {
+            segments: ends.iter().map(|&e| Segment { end: e, poly: <$T>::from_flat(&(0..ar).map(|_| if $rng.bool() { $rng.nice() } else { $rng.float_exp(-3, 3) }).collect::<Vec<f64>>()) }).collect(),
+        };
+        // knot: at, inside, left of the first piece, or beyond it
+        let e1 = ends[0];
+        let kx = match $rng.below(5) {
+            0 => e1,
+            1 => if log { e1 * 0.5 } else { e1 - 1.0 },
+            2 => if log { e1 * (1.0 - $rng.unit() * 0.9) } else { e1 - $rng.unit() * 3.0 },
+            3 => if log { e1 * 0.999 } else { e1.next_down() },
+            _ => *$rng.pick(&ends) * if log { 1.5 } else { 1.0 } + if log { 0.0 } else { 0.25 },
+        };
+        let k0 = Knot { x: kx, y: if $rng.below(3) == 0 { 0.0 } else { $rng.float_exp(-3, 3) } };
+        let res = pw.integral(k0);
+        let ind = pw.indefinite();
+        let by_ref: Vec<_> = Segment::integral_iter_ref(&pw.segments, k0).collect();
+        let by_val: Vec<_> = Segment::integral_iter(pw.segments.clone(), k0).collect();
+        let iter_eq = by_ref == by_val && by_ref == res.segments;
+        // evaluation points: every breakpoint from both sides and itself, the knot, random points
+        let mut ts: Vec<f64> = vec![k0.x];
+        for &e in &ends {
+            ts.push(e);
+            ts.push(e.next_down());
+            ts.push(e.next_up());
+        }
+        for _ in 0..4 {
+            let a = *$rng.pick(&ends);
+            ts.push(if log { a * (0.5 + $rng.unit()) } else { a + $rng.unit() * 2.0 - 1.0 });
+        }
+        if log {
+            ts.retain(|t| *t > 0.0);
+        }
+        let fts: Vec<f64> = ts.iter().map(|&t| res.evaluate(t)).collect();
+        let its: Vec<f64> = ts.iter().map(|&t| ind.evaluate(t)).collect();
+        // both neighbours' values at every interior breakpoint, as the library evaluates them
+        let joins: Vec<Value> = (0..res.segments.len().saturating_sub(1))
+            .map(|j| json!([jb(res.segments[j].poly.evaluate(ends[j])), jb(res.segments[j + 1].poly.evaluate(ends[j]))]))
+            .collect();
+        $sink.ev(json!({"ev":"pwint","kind":$kind,"type":<$T as Form>::name(),
+            "ends":jbs(&ends),"pieces":pw.segments.iter().map(|s| jbs(&s.poly.flat())).collect::<Vec<_>>(),
+            "kx":jb(k0.x),"ky":jb(k0.y),
+            "rends":jbs(&ends_of(&res)),"res":res.segments.iter().map(|s| jbs(&s.poly.flat())).collect::<Vec<_>>(),
+            "iends":jbs(&ends_of(&ind)),"ind":ind.segments.iter().map(|s| jbs(&s.poly.flat())).collect::<Vec<_>>(),
+            "itereq":iter_eq,"joins":joins,"ts":jbs(&ts),"fts":jbs(&fts),"its":jbs(&its)}));
+    }};
+}
+
+pub fn drive_pwint(seed: u64, rounds: usize, extra: &str, sink: &mut Sink) -> usize {
+    let mut rng = Rng::new(seed);
+    let mut n = 0;
+    for _ in 0..rounds {
+        let rng = &mut rng;
+        if extra != "log" {
+            pwint_case!(Poly0, "poly", rng, sink);
+            pwint_case!(Poly1, "poly", rng, sink);
+            pwint_case!(Poly2, "poly", rng, sink);
+            pwint_case!(Poly3, "poly", rng, sink);
+            pwint_case!(Poly4, "poly", rng, sink);
+            pwint_case!(Poly5, "poly", rng, sink);
+            pwint_case!(Poly6, "poly", rng, sink);
+            pwint_case!(Poly7, "poly", rng, sink);
+            n += 8;
+        }
+        if extra != "poly" {
+            pwint_case!(Log<Poly0>, "log", rng, sink);
+            pwint_case!(Log<Poly1>, "log", rng, sink);
+            pwint_case!(Log<Poly2>, "log", rng, sink);
+            pwint_case!(Log<Poly3>, "log", rng, sink);
+            pwint_case!(Log<Poly4>, "log", rng, sink);
+            pwint_case!(Log<Poly5>, "log", rng, sink);
+            pwint_case!(Log<Poly6>, "log", rng, sink);
+            pwint_case!(Log<Poly7>, "log", rng, sink);
+            pwint_case!(Log<Poly8>, "log", rng, sink);
+            n += 9;
+        }
+    }
+    n
+}
